@@ -132,6 +132,24 @@ Theorem C19_undecorated_keeps_lines : forall s first rest,
   normalize s = map trim (first :: rest).
 Proof. exact undecorated_keeps_lines. Qed.
 
+(* the other attributes of the item: a doc attribute whose value is not a
+   string literal (#[doc = concat!(..)], include_str!(..), stringify!(..)) and
+   every other attribute (#[allow(..)], #[cfg(..)], #[deprecated], ..)
+   contribute nothing and hide nothing, wherever they stand; every literal doc
+   line is kept.  (Measured on the unchanged tree: a macro-valued doc attribute
+   is invisible to the macro - its text is not shown - and a plain
+   #[deprecated] on the handler does not mark the operation deprecated: the
+   flags are those of the endpoint / channel attribute only, see
+   C19_fields_as_declared.) *)
+Theorem C19_non_literal_attributes_skipped : forall pre x post,
+  x = ADocExpr \/ x = AOther ->
+  extract_attrs (pre ++ x :: post) = extract_attrs (pre ++ post).
+Proof. exact non_literal_attrs_skipped. Qed.
+
+Theorem C19_attributes_text_lossless : forall attrs,
+  shown (extract_attrs attrs) = declared_text (literal_docs attrs).
+Proof. exact attrs_text_lossless. Qed.
+
 (* and so the document shows all of the comment's text *)
 Theorem C19_documented_text_lossless : forall st a e,
   expand st a = Ok e ->
@@ -357,6 +375,8 @@ Print Assumptions C19_summary_description_split.
 Print Assumptions C19_doc_text_lossless.
 Print Assumptions C19_undecorated_keeps_lines.
 Print Assumptions C19_doc_lossless_b.
+Print Assumptions C19_non_literal_attributes_skipped.
+Print Assumptions C19_attributes_text_lossless.
 Print Assumptions C19_documented_text_lossless.
 Print Assumptions C19_literal_plain.
 Print Assumptions C19_literal_refusals.
